@@ -31,6 +31,9 @@ PROP = dict(
                "of the unrestricted statement. The model is tied to /repo by ~4k (quick) / ~134k (thorough, incl. an exhaustive family) "
                "generated let / call / cond programs per run.",
     design_ref="DESIGN.md section 6, C09",
+    # the first cases of a run pay for the one-time construction of the arr.ai grammar; on a loaded machine that
+    # alone can exceed the harness's default 10 s per-case limit
+    env={"HARNESS_TIMEOUT_MS": "120000"},
     watch=["rel.ArrayPattern.Bind", "rel.TuplePattern.Bind", "rel.validTuplePattern", "rel.DictPattern.Bind", "rel.SetPattern.Bind",
            "rel.ExprPattern.Bind", "rel.ExprsPattern.Bind", "rel.IdentPattern.Bind", "rel.FallbackPattern.Bind",
            "rel.ExtraElementPattern.Bind", "rel.Scope.MatchedUpdate", "rel.Scope.MatchedWith", "rel.Scope.With",
